@@ -255,7 +255,7 @@ def body(ctx, case):
 
 
 def sub_select(ctx):
-    ctx.hyp(case_strategy(), lambda c: body(ctx, c), ctx.n(2400, 60000))
+    ctx.hyp(case_strategy(), lambda c: body(ctx, c), ctx.n(6000, 60000))
 
 
 SUBCHECKS = [
